@@ -5,7 +5,7 @@ From PV Require Import Base.Sx Model.Forest Model.Table Model.LRDriver Model.Sca
 From PV Require Import Extract.RunC19.
 From PV Require Import Extract.RunC12.
 From PV Require Import Extract.RunC09.
-  Validators.TableStruct Extract.Codec Extract.RunC13.
+From PV Require Import Extract.RunC13.
 Import ListNotations.
 Local Open Scope N_scope.
 
